@@ -19,8 +19,8 @@ import c05 as C05
 from c05 import Search, Rec, replay_events, forked, persisted_paths, uses_tree, translator_obligations
 
 F5 = "F5:var_config-sim-pointer-memcmp"
-F20 = "F20:whfast-p_jh-uninitialised-bytes-compared"
-F21 = "F21:particle-doubles-compared-with-ne"
+K_PJH = "C05-N3:whfast-p_jh-uninitialised-bytes-compared"
+K_NE = "C17-N1:particle-doubles-compared-with-ne"
 
 
 class Search17(Search):
@@ -108,7 +108,7 @@ class Search17(Search):
             c.violation(F5, "source and copy compare unequal after evolving identically (variational configuration)", {"cfg": cfg, "path": path})
         elif ne:
             # all meaningful persisted bytes are equal: the difference is in never-initialised / pointer bytes of a memcmp'd payload
-            c.violation(F20 if cfg["integrator"] in ("whfast", "saba", "mercurius") else "evolved-copy-unequal:" + cfg["integrator"],
+            c.violation(K_PJH if cfg["integrator"] in ("whfast", "saba", "mercurius") else "evolved-copy-unequal:" + cfg["integrator"],
                         "source and copy evolved identically (all persisted bytes that REBOUND computes are equal) but compare unequal: %s" % (d2 or "pointer bytes of a memcmp'd payload"),
                         {"cfg": cfg, "path": path, "steps": k})
 
@@ -167,7 +167,7 @@ def perturbation_sweep(c, S, info, R, rb):
             res["reported" if want else ("silent_walltime" if p in wall else ("silent_finding" if cls == "finding" else "silent_transient"))] += 1
             if cls == "finding" and want == 0:
                 fk = {"ri_trace.peri_mode": "F9a:trace-peri_mode-not-persisted",
-                      "ri_mercurius.recalculate_r_crit_this_timestep": "F18:mercurius-recalculate_r_crit-not-persisted"}.get(p, "gap:" + p)
+                      "ri_mercurius.recalculate_r_crit_this_timestep": "C05-N1:mercurius-recalculate_r_crit-not-persisted"}.get(p, "gap:" + p)
                 c.violation(fk, "two simulations that differ in the user setting %s compare equal (the member is not persisted)" % p, {"member": p})
             continue
         if want:
@@ -239,7 +239,7 @@ def element_sweep(c, S, info, R, rb):
                     continue
                 if want == 0:
                     isvar = row["name"] == "var_config"
-                    fk = F5 if isvar else (F20 if row["name"].startswith("ri_whfast") else "address-dependent:" + row["name"])
+                    fk = F5 if isvar else (K_PJH if row["name"].startswith("ri_whfast") else "address-dependent:" + row["name"])
                     c.violation(fk, "two simulations identical except for the %s `%s` inside the persisted payload %s compare unequal (payload is memcmp'd)" % (
                         "pointer member" if m["kind"] != "pad" else "padding bytes", m["name"], row["name"]),
                         {"cfg": cfg, "row": row["name"], "member": m["name"]})
@@ -259,7 +259,7 @@ def nan_cases(c, S, info, R, rb):
     cp, _ = R.copy(a)
     c.count(("nan", "y"))
     if R.diff(a, cp) != 0:
-        c.violation(F21, "a simulation holding a particle with a NaN coordinate (the flag REBOUND itself uses for removed particles) compares unequal to its own copy",
+        c.violation(K_NE, "a simulation holding a particle with a NaN coordinate (the flag REBOUND itself uses for removed particles) compares unequal to its own copy",
                     {"cfg": cfg, "edit": "particles[2].y = nan"})
     a = build_sim(rb, cfg); advance(a, 1)
     a.particles[1].vz = 0.0
@@ -267,7 +267,7 @@ def nan_cases(c, S, info, R, rb):
     cp.particles[1].vz = -0.0
     c.count(("signed-zero", "vz"))
     if R.diff(a, cp) == 0:
-        c.violation(F21, "simulations whose persisted bytes differ (+0.0 vs -0.0 in a particle velocity) compare equal",
+        c.violation(K_NE, "simulations whose persisted bytes differ (+0.0 vs -0.0 in a particle velocity) compare equal",
                     {"cfg": cfg, "edit": "copy.particles[1].vz = -0.0"})
 
 
@@ -293,7 +293,7 @@ def correspondence(c, exe, rb, info, R, cfgs, rng):
         try:
             a = build_sim(rb, cfg); advance(a, cfg["save_after"]); R.save(a)
             if uses_tree(cfg) and not forked(lambda _: bool(R.copy(a)), None)[0]:
-                continue     # F23: copying this state crashes (reported by the search)
+                continue     # C05-N5: copying this state crashes (reported by the search)
             sims.append((cfg, a))
         except Exception:
             pass
@@ -377,7 +377,7 @@ def run(c):
                              "correspondence drv_c05 CMP vs compiled binarydiff.c on real stream pairs (differential)", "ctypes, raw struct memory access by compiler offsets"]
     c.assumptions += ["the position walk of reb_binary_diff over the byte streams equals id lookup (unique ids) - byte level is C06's model; tied here only by the CMP correspondence",
                       "independence of a copy is by construction in the model (no shared storage); on the real code it is established by the differential runs only",
-                      "c17_compare_self_partial needs the no-NaN hypothesis (F21); the copy==source theorem for the whole loader is not proved (search + correspondence only)"]
+                      "c17_compare_self_partial needs the no-NaN hypothesis (C17-N1); c17_copy_equal_partial needs the no-variational-configuration hypothesis (F5)"]
     cfgs = lattice(c.thorough)
     c.cov["lattice_size"] = len(cfgs)
     sub = [cf for i, cf in enumerate(cfgs) if c.thorough or i % 4 == (c.seed % 4)]
@@ -385,6 +385,12 @@ def run(c):
     c.log("correspondence done: %s pairs" % c.cov.get("compare_pairs"))
     paths = ["copy", "pickle", "buffer", "file"]
     cases = [(cfg, paths[(i + c.seed) % 4] if i % 2 else "copy", 9) for i, cfg in enumerate(cfgs)]
+    if c.thorough:
+        cases += [(cfg, pth, 23) for cfg in cfgs for pth in paths]
+    for i in range(6000 if c.thorough else 600):      # randomised save points / lengths / paths (seeded)
+        cfg = dict(cfgs[c.rng.next() % len(cfgs)])
+        cfg["save_after"] = c.rng.randint(0, 12)
+        cases.append((cfg, paths[c.rng.next() % 4], c.rng.randint(1, 25)))
     run_cases17(c, S, cases)
     c.log("lattice done")
     perturbation_sweep(c, S, info, R, rb)
